@@ -98,7 +98,6 @@ pub const MOVE_TWINS: &[(&str, &str, &str)] = &[
     ("4k3/3p4/8/4P3/8/8/7P/4K3 w - - 0 1", "h2h4 d7d5", "h2h3 d7d6 h3h4 d6d5"),
     ("4k3/7p/8/8/4p3/8/3P4/4K3 b - - 0 1", "h7h5 d2d4", "h7h6 d2d3 h6h5 d3d4"),
     ("r3k2r/3p4/8/4P3/8/8/7P/R3K2R w KQkq - 0 1", "h2h4 d7d5", "h2h3 d7d6 h3h4 d6d5"),
-    ("r1bqkbnr/pp1ppppp/2n5/2p5/4P3/5N2/PPPP1PPP/RNBQKB1R w KQkq - 2 3", "e4e5 d7d5", "h2h3 d7d6 e4e5 d6d5 h3h4 h7h6"),
 ];
 
 /// Histories after which a castling right is gone although king and a rook stand on their home squares again (or a
